@@ -2,7 +2,7 @@
 From PF Require Import Base.Bytes Formats.Stl Formats.StlProofs.
 From PF Require Import Formats.StlNormal Formats.StlNormalProofs Formats.StlIo Formats.StlIoProofs.
 From Coq Require Import ZArith Reals.
-From Flocq Require Import Core.Raux Core.Zaux Core.Defs.
+From Flocq Require Import Core.Raux Core.Zaux Core.Defs IEEE754.Binary IEEE754.Bits.
 Open Scope N_scope.
 
 (* 84 + 50*n bytes for n triangles, for every n including 0 *)
@@ -240,6 +240,12 @@ Theorem stl_facet_normal_value : forall x y z wx wy wz,
       (Rabs (f32R w - IZR sk / sqrt (IZR S)) <= (/ 2 + bpow radix2 (- 21)) * bpow radix2 e)%R.
 Proof. exact facet_ok_sound. Qed.
 Print Assumptions stl_facet_normal_value.
+
+(* the real number [f32R w] used above is the value of the word in Flocq's formalisation of IEEE-754 binary32 *)
+Theorem stl_f32_decoder_is_ieee754 : forall w : N, w < 4294967296 -> f32_decode w <> None ->
+  B2R 24 128 (b32_of_bits (Z.of_N w)) = f32R w.
+Proof. exact f32R_ieee754. Qed.
+Print Assumptions stl_f32_decoder_is_ieee754.
 
 (* "normalised": the length of the corner normals does not matter — scaling all three by any c > 0 (in particular
    the 1/3 of the mean, and the common power of two the harness drops) leaves the accepted words unchanged *)
